@@ -9,6 +9,7 @@ package memfs
 
 //@ type MemFile
 //@   inv[C02] self.vfs != nil && self.at >= 0
+//@   inv[C02,C14] self.dirIndex >= 0
 //@   inv[C02] self.nd is *fileNode ==> self.nd.(*fileNode) != nil
 //@   inv[C02] self.nd is *dirNode ==> self.nd.(*dirNode) != nil
 //@   inv[C02] self.nd is *symlinkNode ==> self.nd.(*symlinkNode) != nil
@@ -275,8 +276,29 @@ package memfs
 
 //@ func (*dirNode).dirNames
 //@   requires[C08] held(dn.mu)
+//@   modifies nothing
 //@ func (*dirNode).dirEntries
 //@   requires[C08] held(dn.mu)
+//@   modifies nothing
+
+// Directory batches as os.File: the handle keeps the listing taken at its first read and a cursor;
+// n <= 0 returns everything that remains (then nothing), n > 0 at most n entries, io.EOF at the end.
+//@ func (*MemFile).ReadDir
+//@   nilrecv
+//@   let dirOK := f != nil && f.name != "" && f.nd != nil && f.nd is *dirNode
+//@   ensures[C02,C14] f == nil ==> r0 == nil && r1 == fs.ErrInvalid
+//@   ensures[C02,C14] dirOK && old(f.dirEntries) != nil ==> f.dirEntries == old(f.dirEntries)
+//@   ensures[C02,C14] dirOK && n <= 0 ==> r1 == nil && f.dirIndex == len(f.dirEntries) && len(r0) == len(f.dirEntries) - min(old(f.dirEntries) != nil ? old(f.dirIndex) : 0, len(f.dirEntries))
+//@   ensures[C02,C14] dirOK && n > 0 && old(f.dirEntries) != nil && old(f.dirIndex) >= len(f.dirEntries) ==> r0 == nil && r1 == io.EOF && f.dirIndex == old(f.dirIndex)
+//@   ensures[C02,C14] dirOK && n > 0 && old(f.dirEntries) != nil && old(f.dirIndex) < len(f.dirEntries) ==> r1 == nil && len(r0) == min(n, len(f.dirEntries) - old(f.dirIndex)) && f.dirIndex == old(f.dirIndex) + len(r0)
+//@ func (*MemFile).Readdirnames
+//@   nilrecv
+//@   let dirOK := f != nil && f.name != "" && f.nd != nil && f.nd is *dirNode
+//@   ensures[C02,C14] f == nil ==> r0 == nil && r1 == fs.ErrInvalid
+//@   ensures[C02,C14] dirOK && old(f.dirNames) != nil ==> f.dirNames == old(f.dirNames)
+//@   ensures[C02,C14] dirOK && n <= 0 ==> r1 == nil && f.dirIndex == len(f.dirNames) && len(r0) == len(f.dirNames) - min(old(f.dirNames) != nil ? old(f.dirIndex) : 0, len(f.dirNames))
+//@   ensures[C02,C14] dirOK && n > 0 && old(f.dirNames) != nil && old(f.dirIndex) >= len(f.dirNames) ==> r0 == nil && r1 == io.EOF && f.dirIndex == old(f.dirIndex)
+//@   ensures[C02,C14] dirOK && n > 0 && old(f.dirNames) != nil && old(f.dirIndex) < len(f.dirNames) ==> r1 == nil && len(r0) == min(n, len(f.dirNames) - old(f.dirIndex)) && f.dirIndex == old(f.dirIndex) + len(r0)
 
 // removeAll releases every entry of the directory it empties: each complete iteration over the
 // children has called delete on that child (a file's link count goes down with its entry).
